@@ -1029,31 +1029,83 @@ func genExecutorXCase(c *Ctx) *exxIn {
 	return exxGenUnsupported(c)
 }
 
-func runExecutorX(c *Ctx) {
-	for i := 0; i < c.N; i++ {
-		in := genExecutorXCase(c)
-		c.Begin("reconcile", in)
-		exxCase(c, in)
-		if i%5 == 0 {
-			// the same reconcile with one API call failing: every index (thorough, sampled) or a few of them
-			var base faultRun
-			if r := guard(func() interface{} { _, base = exxRunF(in, 0); return nil }); r != nil {
+// exxSuccessor: the case a following reconcile sees — the status and the world the implementation just left (nil: the
+// BatchRelease is gone or the reconcile panicked).  For the canary family the Deployment controller may have caught up.
+func exxSuccessor(c *Ctx, in *exxIn, impl interface{}) *exxIn {
+	var o struct {
+		Panic *string `json:"panic"`
+		BR    *struct {
+			HasFinalizer bool     `json:"hasFinalizer"`
+			Status       exStatus `json:"status"`
+		} `json:"br"`
+		World exxWorld `json:"world"`
+	}
+	b, err := json.Marshal(impl)
+	if err != nil || json.Unmarshal(b, &o) != nil || o.Panic != nil || o.BR == nil {
+		return nil
+	}
+	n := *in
+	n.K = 0
+	n.BR.HasFinalizer, n.BR.Status = o.BR.HasFinalizer, o.BR.Status
+	n.World = o.World
+	if n.World.Shape == "canary" {
+		// the order the API lists them in once the names are concretised again: "dNNNN" < "z" (a canary the reconcile just
+		// created was listed after the stable Deployment under its generated name "z-NNNN")
+		sort.SliceStable(n.World.Deps, func(i, j int) bool { return ccNameOf(n.World.Deps[i].Name) < ccNameOf(n.World.Deps[j].Name) })
+	}
+	if n.World.Shape == "canary" && c.Rng.Intn(2) == 0 {
+		for i := range n.World.Deps {
+			d := &n.World.Deps[i]
+			if d.Name == 0 || d.Replicas == nil {
 				continue
 			}
-			ks := []int{}
-			if base.Calls <= 4 || (c.Thorough() && i%25 == 0) {
-				for k := 1; k <= base.Calls; k++ {
-					ks = append(ks, k)
-				}
-			} else {
-				ks = append(ks, 1+c.Rng.Intn(base.Calls), 1+c.Rng.Intn(base.Calls), base.Calls)
+			d.ObservedGeneration = d.Generation
+			d.StatusReplicas, d.UpdatedReplicas, d.AvailableReplicas = *d.Replicas, *d.Replicas, *d.Replicas
+		}
+		if c.Rng.Intn(2) == 0 {
+			n.World.Exp = "none" // the informer observed the creation
+		}
+	}
+	return &n
+}
+
+func exxFaults(c *Ctx, in *exxIn, all bool) {
+	var base faultRun
+	if r := guard(func() interface{} { _, base = exxRunF(in, 0); return nil }); r != nil {
+		return
+	}
+	ks := []int{}
+	if base.Calls <= 4 || all {
+		for k := 1; k <= base.Calls; k++ {
+			ks = append(ks, k)
+		}
+	} else {
+		ks = append(ks, 1+c.Rng.Intn(base.Calls), 1+c.Rng.Intn(base.Calls), base.Calls)
+	}
+	for _, k := range ks {
+		f := *in
+		f.K = k
+		c.Begin("reconcile", &f)
+		exxCase(c, &f)
+	}
+}
+
+func runExecutorX(c *Ctx) {
+	for i := 0; c.Count < c.N; i++ {
+		in := genExecutorXCase(c)
+		// a short walk: the reconcile, then the reconciles that follow from what it left
+		for step := 0; in != nil && step < 4; step++ {
+			c.Begin("reconcile", in)
+			impl := guard(func() interface{} { o, _ := exxRunF(in, 0); return o })
+			c.Emit("reconcile", in, impl)
+			if (i+step)%6 == 0 {
+				// the same reconcile with one API call failing: every index (thorough, sampled) or a few of them
+				exxFaults(c, in, c.Thorough() && i%25 == 0)
 			}
-			for _, k := range ks {
-				f := *in
-				f.K = k
-				c.Begin("reconcile", &f)
-				exxCase(c, &f)
+			if c.Rng.Intn(3) == 0 {
+				break
 			}
+			in = exxSuccessor(c, in, impl)
 		}
 	}
 	c.Done(0)
